@@ -1,16 +1,71 @@
+import os as _os
 HDR = TOK + ["src/HttpHeader.cc", "src/HttpHeaderTools.cc", "src/http/RegisteredHeaders.cc", "src/http/ContentLengthInterpreter.cc",
              "src/http/one/Parser.cc", "src/String.cc", "src/StrList.cc", "src/MemBuf.cc", "src/mime_header.cc", "src/SquidConfig.cc",
              "src/ip/Address.cc", "src/helper/ChildConfig.cc", "lib/util.cc", "compat/xstring.cc"]
 _U = HDR + ["src/store.cc", "src/MemObject.cc", "src/HttpReply.cc", "src/http/Message.cc", "src/HttpBody.cc", "src/HttpHdrCc.cc",
             "src/http/RequestMethod.cc", "src/http/MethodType.cc", "src/http/StatusLine.cc", "src/http/StatusCode.cc"]
 _e = lambda n, b, r, **kw: dict(name=n, bounds=b, reach=list(r), **dict(dict(jobs=4, max_samples=6, sample_every=37), **kw))
+_T = "all times in [0, 2^31) seconds"
+_V = ("refreshCheck()/refreshCheckHTTP(): entry timestamp in [0,2^31); entry expires and Last-Modified any 32-bit value (without explicit expiry: Last-Modified "
+      "absent or not before the timestamp, so that the floating-point LM-factor rule is not entered); entry flags any 16-bit value; request Cache-Control absent or any "
+      "mask over the 14 directives with any 31-bit max-age/max-stale/min-fresh (max-stale without value included); request flags ignoreCc, nocacheHack symbolic; ")
+_VQ = _V + "clock at 10^9, If-Modified-Since flag off, stored reply Cache-Control absent or any mask without stale-if-error, max_stale 1 week; built-in refresh rule"
+_VT = _V + "clock symbolic in [0,2^31), If-Modified-Since flag symbolic, stored reply Cache-Control absent or any mask and values, squid.conf max_stale any 32-bit value; built-in refresh rule"
+_X = ("HttpReply::hdrCacheInit()/hdrExpirationTime(): receipt time, Date (present with any time, or absent), Expires (absent, any time, or unparsable), "
+      "Cache-Control object absent or any mask with any 31-bit max-age/s-maxage; " + _T)
+_C = lambda t0: ("reply as in c12_expiry, stored by the real StoreEntry::timestampsSet() at receipt time " + t0 + " (no Age field, direct fetch), then refreshCheck() for a plain "
+      "request (no Cache-Control, no reload) at any later time; no revalidation marks on the entry; " + _T + "; KNOWN-FINDING candidate class F1 excluded (see assumptions)")
+_L = lambda t0: ("reply with Date (any time), Expires (any time or unparsable), Last-Modified (any time), no Cache-Control; otherwise as c12_chain (receipt time " + t0 + "); "
+      "KNOWN-FINDING candidate classes F1, F2 excluded (see assumptions)")
+_Q0, _T0 = "10^9", "symbolic in [0,2^31)"
+_R1 = ("must-revalidate", "request-max-age", "reload", "beyond-max-stale", "expired-stale", "fresh-by-max-stale", "fresh-expires", "other")
 SPEC = dict(
+    # C12_SHOW=<bit mask> re-admits KNOWN-FINDING candidate classes (bit 0 = F1, bit 1 = F2) to show their counterexamples
+    defines=(["C12_SHOW=" + _os.environ["C12_SHOW"]] if _os.environ.get("C12_SHOW") else []),
     harness="C12_stale.cc", units=_U, unit_flags={"compat/xstring.cc": ["-Dxstrdup=vf_unused_squid_xstrdup"]},
+    native_units=["src/sbuf/Algorithms.cc"],
     o0_units=["HARNESS", "src/store.cc", "src/HttpReply.cc"], ub=True, ub_files=["refresh.cc", "store.cc", "HttpReply.cc"],
-    scope="kernel", scope_note="TODO",
+    scope="kernel",
+    scope_note="kernel decided: (K1) refreshCheck()/refreshStaleness()/refreshCheckHTTP() (refresh.cc) with the default refresh rule return a STALE_* verdict whenever the "
+               "entry's explicit expiry time has been reached and the request carries no (honoured) max-stale, or is stale by at least the request's max-stale=N; "
+               "whenever the request has max-age=0 or a max-age smaller than the entry's age (stored reply not 'immutable'); whenever the request is a client reload "
+               "(nocacheHack); whenever the entry is marked ENTRY_REVALIDATE_ALWAYS, or ENTRY_REVALIDATE_STALE and expired -- regardless of the request; FRESH_EXPIRES "
+               "only before the expiry time (less min-fresh), heuristic FRESH verdicts only without explicit expiry, max-stale verdicts only for a request max-stale on "
+               "an unmarked entry; no arithmetic UB in refresh.cc. (K2) HttpReply::hdrExpirationTime() = Date + s-maxage | Date + max-age | Expires | none in this "
+               "precedence (receipt time for a missing Date or unparsable Expires). (K3) from header values through the real StoreEntry::timestampsSet() to the verdict "
+               "of a later plain request: once (now - receipt time) >= s-maxage | max-age | Expires - Date the verdict is STALE_*, for every Date skew -- except the two "
+               "candidate-finding classes F1, F2 listed in assumptions. "
+               "gap: what clientReplyContext::cacheHit()/processExpired()/handleIMSReply() (client_side_reply.cc) do with the verdict (revalidation request, serving the "
+               "stale copy when revalidation fails unless failOnValidationError); that every hit runs refreshCheckHTTP() (internal requests, collapsed hits, "
+               "ENTRY_SPECIAL, offline_mode skip it); plain flags.noCache requests (Cache-Control: no-cache without nocache_hack), which skip the store lookup in "
+               "clientReplyContext::identifyStoreObject(); how ENTRY_REVALIDATE_* get set from the reply's Cache-Control (HttpStateData::haveParsedReplyHeaders, C11's "
+               "kernel K2); Age header and peer response-time corrections in timestampsSet(); ICP/HTCP/cache-digest uses of refreshCheck; the floating-point LM-factor "
+               "rule; parsing of the date texts (C35) and of Cache-Control (C29)",
     entries=dict(
-        quick=[_e("c12_verdict", "probe", ()), _e("c12_expiry", "probe", ()), _e("c12_chain", "probe", ())],
-        thorough=[]),
-    timeout=dict(quick=400, thorough=1500),
-    stubs=[], outside="",
+        quick=[_e("c12_verdict", _VQ, _R1), _e("c12_expiry", _X, ("explicit-expiry", "no-explicit-expiry"), jobs=2),
+               _e("c12_chain", _C(_Q0), ("lifetime-passed", "fresh")), _e("c12_chain_lm", _L(_Q0), ("lifetime-passed", "fresh"))],
+        thorough=[_e("c12_verdict", _VT, _R1, jobs=8), _e("c12_expiry", _X, ("explicit-expiry", "no-explicit-expiry"), jobs=2),
+                  _e("c12_chain", _C(_T0), ("lifetime-passed", "fresh")), _e("c12_chain_lm", _L(_T0), ("lifetime-passed", "fresh"), jobs=2)]),
+    timeout=dict(quick=600, thorough=2400),
+    stubs=["Time::ParseRfc1123() (src/time/rfc1123.cc not linked) maps the marker texts '@D' '@E' '@L' to the harness's symbolic Date/Expires/Last-Modified times and "
+           "everything else to -1 (unparsable): date text parsing is C35's subject",
+           "the reply's/request's Cache-Control is an HttpHdrCc object with mask and values set directly (what HttpHdrCc::parse() leaves; C29); HttpReply is really "
+           "constructed; Date/Expires/Last-Modified are real header entries read through HttpHeader::getTime()",
+           "HttpRequest, StoreEntry, MemObject are zeroed raw memory of the real size; set directly: HttpRequest::method/header/cache_control/flags, StoreEntry::mem_obj/"
+           "flags/timestamp/expires/lastModified_, MemObject::storeId_/method/reply_ (raw pointer, no locking)",
+           "refresh.cc is #included into the harness TU (refreshCheck/refreshStaleness are static); store.cc is linked for StoreEntry::timestampsSet()",
+           "SquidConfig Config is the real global, zero-initialised: no refresh_pattern (built-in rule min 0, 20%, max 3 days, no options), max_stale, "
+           "refresh_all_ims/reload_into_ims/offline_mode/vary_ignore_expire off", "StatHist::enumInit/count no-ops", "debugs() disabled"],
+    assumptions=["'explicit freshness lifetime passed' = now >= entry expiry time (K1) / now - receipt time >= s-maxage | max-age | Expires - Date with RFC 9111 4.2.1 "
+                 "precedence, Date = receipt time when missing, unparsable Expires = already expired (K3); resident time is a lower bound of RFC 9111's current_age",
+                 "KNOWN-FINDING candidate (K1): a request max-age (also max-age=0) is ignored when the stored reply has Cache-Control: immutable (RFC 8246 behaviour chosen "
+                 "by Squid); that class is not claimed",
+                 "KNOWN-FINDING candidate F1 (K3, excluded by vf_assume): lifetime from an unparsable Expires and a Date more than 24 h older than Squid's clock -> "
+                 "entry expiry = receipt + (receipt - Date): FRESH_EXPIRES for as long as the Date was old",
+                 "KNOWN-FINDING candidate F2 (K3, excluded by vf_assume in c12_chain_lm): lifetime from Expires, Date ahead of Squid's clock and Expires <= Date - receipt - 1 "
+                 "-> rebased expiry <= -1 is read as 'no explicit expiry' and with Last-Modified the LM-factor rule answers FRESH_LMFACTOR_RULE",
+                 "observation outside the bounds: refreshStaleness() returns time_t differences as int; with clock + min-fresh >= 2^31 + expiry (after 2038 or absurd "
+                 "min-fresh) the staleness wraps negative (within the bounds the verdict stays STALE_*, only STALE_MUST_REVALIDATE may degrade to STALE_EXPIRES)"],
+    outside="times beyond 2^31; refresh_pattern lines and their override options, refresh_all_ims, reload_into_ims, offline_mode; replies with an Age field or fetched "
+            "through a peer with measured response time; everything listed under gap",
 )
